@@ -13,7 +13,16 @@ _PLAIN = re.compile(r'^[a-z][A-Za-z0-9_]*$')
 
 
 def gname(src):
-    k = src.n(8)
+    k = src.n(9)
+    if k == 8:
+        # long atoms (90-230 characters) with characters that the code generator has to escape at varying offsets
+        n = 90 + src.n(140)
+        pad = src.pick(['A', 'ab', 'x y', 'é'])
+        body = (pad * (n // len(pad) + 1))[:n]
+        out = []
+        for i, ch in enumerate(body):
+            out.append(src.pick(['\n', '\t', "'", '"', '\r', '\x00', '☃']) if src.rare(1, 24) else ch)
+        return ''.join(out) + src.pick(['', '\n', 'tail', '"'])
     if k < 3:
         return src.pick(['a', 'b', 'foo', 'x1', 'aB_c', 'nil', 'truex', 'failure', 'e'])
     n = src.n(7)
@@ -138,7 +147,7 @@ class C16(Prop):
     rule = ('a literal term AST (atoms unquoted or quoted with generated backslash-free Unicode text: letters, digits, '
             'blanks, newlines and other line separators, NUL, quote written backslash-quote, double quote, punctuation, '
             'non-BMP; integers up to 10^30, also spelled with leading zeros; compounds nested <= 4 with arbitrary functor names; proper lists; [H|T] '
-            'patterns; _) is printed to source and placed in fact, head-with-body, body (X = LIT) and query position. '
+            'patterns; _) is printed to source and placed in fact, head-with-body, body (X = LIT) and query position, or in a fact of a source FILE compiled with compile_prolog_from_file. '
             'Round trip: the reification of X after p(X) equals the AST (up to renaming of variables; each _ distinct); '
             'to_python(X) equals the specified image (atom -> name, int -> int, proper list -> list, [] -> [], compound '
             '-> (name, [args]), unbound -> None); the same term built with atom / functor / functor1-3 / listpair / '
@@ -154,7 +163,7 @@ class C16(Prop):
         t = glit(src)
         names = {}
         text = lit_src(t, src, names)
-        return {'lit': t, 'src': text, 'position': src.pick(['fact', 'head', 'body', 'query']), 'style': src.n(6)}
+        return {'lit': t, 'src': text, 'position': src.pick(['fact', 'head', 'body', 'query', 'file']), 'style': src.n(6)}
 
     def sample_view(self, case):
         return {'literal_source': case['src'], 'position': case['position']}
@@ -184,7 +193,23 @@ class C16(Prop):
         else:
             text = 'p(%s).\nq(X) :- p(X).\n' % s
         detail = {'text': text, 'literal': show(t) if len(repr(t)) < 400 else repr(t)[:400]}
-        comp = C.compile_case(text)
+        if pos == 'file':
+            # the same source read from a file by the library's file entry point
+            import tempfile
+            import os
+            fd, path = tempfile.mkstemp(prefix='verif-c16-', suffix='.prolog')
+            try:
+                with os.fdopen(fd, 'w', encoding='utf8', newline='') as f:
+                    f.write(text)
+                try:
+                    code = impl.compiler.compile_prolog_from_file(path, impl.Ctx)
+                    comp = ('ok', code)
+                except Exception as e:      # noqa
+                    comp = ('exc', 'compile_prolog_from_file:' + impl.exc_signature(e), '%s: %s' % (type(e).__name__, str(e)[:300]))
+            finally:
+                os.unlink(path)
+        else:
+            comp = C.compile_case(text)
         if comp[0] == 'exc':
             if 'GeneratedCodeError' in comp[1] and term_depth(t) > 30:
                 return DISCARD('too deeply nested for Python (compiler says so)')
